@@ -7,6 +7,7 @@
    Definitions only.  Opaque strings (graph ids, node ids, class names, property names and values, the
    per-delegation content) are interned to N by the harness. *)
 From Coq Require Import List NArith Bool.
+From FIM Require Gen.Cbm14Gen.
 Import ListNotations.
 Open Scope N_scope.
 
@@ -220,9 +221,16 @@ Definition unmerge_adm (cbm g : N) (st : store) : outcome :=
 (* ---- snapshot / rollback ---- *)
 Definition snapshot (cbm new : N) (st : store) : outcome :=
   if negb (gexists cbm st) then OErr EPGQ st else OOk (clone cbm new st).   (* clone_graph: "Unable to find graph" (fix fdc67eb) *)
-Definition rollback (cbm sid : N) (st : store) : outcome :=
-  let st1 := delete_graph cbm st in
-  if negb (gexists sid st1) then OErr EAssert st1 else rehome sid cbm st1.
+(* rollback (abc_cbm.py): with checks_first the snapshot is looked up (cast_graph asserts that it exists) BEFORE the
+   combined graph deletes itself, otherwise after.  Which of the two the code does is read from the source on every
+   run (translator/gen_cbm14.py -> Gen/Cbm14Gen.rollback_checks_first). *)
+Definition rollback_gen (checks_first : bool) (cbm sid : N) (st : store) : outcome :=
+  if checks_first then
+    if negb (gexists sid st) then OErr EAssert st else rehome sid cbm (delete_graph cbm st)
+  else
+    let st1 := delete_graph cbm st in
+    if negb (gexists sid st1) then OErr EAssert st1 else rehome sid cbm st1.
+Definition rollback : N -> N -> store -> outcome := rollback_gen Cbm14Gen.rollback_checks_first.
 
 (* ---- canonical view of one graph (what the harness records from the implementation) ---- *)
 Definition vnode := (N * N * list (N * N) * sival * dval * dval)%type.
